@@ -478,11 +478,13 @@ func runVectors(ctx *Ctx) {
 	for _, vm := range msgs {
 		ver := vecVersion(vm.n)
 		var locs []vecLoc
+		var keys []string
 		vecWalk(vm.n, func(n, parent *xnode, loc vecLoc) {
-			if _, ok := vecSpec[n.Name]; !ok || (n.Attrs["type"] != "" && n.Attrs["type"] != "Structure") {
+			key := vecSpecKey(vm.n, n, parent)
+			if _, ok := vecSpec[key]; !ok || (n.Attrs["type"] != "" && n.Attrs["type"] != "Structure") {
 				return
 			}
-			if m := vecSpecCheck(n); m != "" {
+			if m := vecSpecCheck(key, n); m != "" {
 				if !st.specSeen["bad:"+m] {
 					st.specSeen["bad:"+m] = true
 					ctx.Res.Fail("vectors: the pinned specification order disagrees with " + vm.rel + ": " + m)
@@ -490,6 +492,14 @@ func runVectors(ctx *Ctx) {
 				return
 			}
 			k := vm.n.Name + "|" + strconv.Itoa(ver) + "|" + n.String()
+			if key != n.Name {
+				// context-keyed structures (batch items, payloads) occur thousands of times with different content: one
+				// occurrence per shape (which children are present) and version
+				k = key + "|" + strconv.Itoa(ver)
+				for _, c := range n.Children {
+					k += "|" + c.Name
+				}
+			}
 			if parent != nil {
 				k += "|" + parent.Name
 			}
@@ -498,10 +508,11 @@ func runVectors(ctx *Ctx) {
 			}
 			st.specSeen[k] = true
 			locs = append(locs, loc)
+			keys = append(keys, key)
 		})
-		for _, loc := range locs {
-			ctx.Res.Count("vector.spec-node." + vecAt(vm.n, loc.path).Name)
-			for _, v := range vecSpecVariants(vm.n, loc.path, ver, maxPairs, ctx.R) {
+		for j, loc := range locs {
+			ctx.Res.Count("vector.spec-node." + keys[j])
+			for _, v := range vecSpecVariants(keys[j], vm.n, loc.path, ver, maxPairs, ctx.R) {
 				vectorCase(ctx, vm.rel, vm.idx, v, "spec")
 			}
 		}
